@@ -1801,6 +1801,9 @@ def unit_sizefmt(inj, scratch):
     tail = re.sub(r'\s+', '', s.mask[m2.start():it['close']])
     if not re.search(r'humansize::FormatSizeOptions::from\(format\)\.fixed_at\(fixed_at\)\.decimal_places\(zeroesasusize\)\.space_after_value\(space\)', tail):
         raise AnchorLost('format_filesize: format_options is not built from (format, fixed_at, zeroes, space)')
+    # ---- tail: everything after the statement `let format_options = ..;` (rendering call and unit text replacements)
+    semi = s.mask.index(';', m2.start())
+    tail_text = dedent(s.text[semi + 1:it['close']].strip('\n'))
     text = f'''pub mod sizefmt {{
 pub mod humansize {{
     #[derive(Clone, Copy, PartialEq, Debug)] pub enum FixedAt {{ Base, Kilo, Mega, Giga, Tera, Peta, Exa }}
@@ -1808,6 +1811,14 @@ pub mod humansize {{
     pub const BINARY: Base = Base::Binary;
     pub const DECIMAL: Base = Base::Decimal;
     pub const WINDOWS: Base = Base::Windows;
+    pub struct Opts;
+    pub static mut RENDERED: &str = "";
+    // stands for the humansize crate: answers with the text the harness states the crate renders
+    pub fn format_size(_size: u64, _o: Opts) -> String {{ unsafe {{ String::from(RENDERED) }} }}
+}}
+// ---- verbatim: format_filesize after the statement `let format_options = ..;` ----
+pub fn frag_size_text(size: u64, format_options: humansize::Opts, short_units: bool) -> String {{
+    {tail_text}
 }}
 pub fn error_exit(_a: &str, _b: &str) -> ! {{ kani::assume(false); loop {{}} }}
 // ---- verbatim: format_filesize from `let fixed_at;` up to (not including) `let format_options = ..` ----
@@ -1821,7 +1832,9 @@ pub fn frag_size_options(mut modifier: String, mut zeroes: i32) -> (Option<human
     inj.new_file(FRAG_FILE, text)
     r, d = frag_record('frag_size_options', 'src/util/mod.rs', 'fn format_filesize / statements from `let fixed_at;` up to `let format_options = ..` (verbatim); the use of (format, fixed_at, zeroes, space) in format_options is checked by shape',
                        t, t, ['humansize::{FixedAt, BINARY, DECIMAL, WINDOWS} -> shim enums'], 'the specifier regex (precision / space / unit capture), humansize rendering, the kB/short-unit text replacements')
-    return dict(functions=[r], dropped=[d], assumptions=['humansize: BINARY = 1024-based with KiB.. units, DECIMAL = 1000-based with kB.., WINDOWS = 1024-based with KB.. units; FixedAt fixes the unit'])
+    r2, d2 = frag_record('frag_size_text', 'src/util/mod.rs', 'fn format_filesize / everything after the statement `let format_options = ..;` (verbatim)', tail_text, tail_text,
+                         ['humansize::format_size -> stand-in answering with a harness-stated rendering'], 'humansize rendering itself (T3)')
+    return dict(functions=[r, r2], dropped=[d, d2], assumptions=['humansize: BINARY = 1024-based with KiB.. units, DECIMAL = 1000-based with kB.., WINDOWS = 1024-based with kB.. units; FixedAt fixes the unit'])
 
 
 def unit_variance(inj, scratch):
